@@ -111,6 +111,7 @@ func runC19(p *core.Prog, r *core.Report) {
 	c19R6(p, r)
 	// the close binding is not gated: closing a layout the run has not written to must not sweep it (shared with C08.R2)
 	c08R2(p, r, "C19.R7")
+	c19R8(p, r)
 }
 
 // c19R6: a script that fails stops by itself. RunScript turns panics inside the script into an error;
@@ -726,5 +727,56 @@ func c19R5(p *core.Prog, r *core.Report) {
 	}
 	if n == 0 {
 		r.Undecided(rule, "cmd/regbot", "script runs", "", "no call of process found")
+	}
+}
+
+// c19R8: the gate of R1 covers the functions regbot gives its scripts. The interpreter has functions
+// of its own: with the default library set a script can `os.remove`, `os.rename` and `io.open(…, "w")`
+// any file, a layout's index.json included, and no dry-run flag stands in between. "Whatever functions
+// it calls" therefore needs an interpreter that was created without the file-capable libraries (or with
+// them closed again). Known finding D28 on the unchanged tree.
+func c19R8(p *core.Prog, r *core.Report) {
+	const rule = "C19.R8"
+	r.Rule(rule, "the scripts' own library cannot touch files: every gopher-lua state created in cmd/regbot/sandbox is created with SkipOpenLibs and opens neither the os nor the io library (lua.NewState() without options opens both)", 1)
+	const luaPkg = "github.com/yuin/gopher-lua"
+	n := 0
+	for _, fn := range pkgFuncs(p, "cmd/regbot/sandbox") {
+		lab := labeler{}
+		core.Calls(fn, func(c ssa.CallInstruction) {
+			cal := core.Callee(c)
+			if cal == nil || cal.Pkg() == nil || cal.Pkg().Path() != luaPkg {
+				return
+			}
+			switch cal.Name() {
+			case "NewState":
+				n++
+				skip := false
+				for _, a := range c.Common().Args {
+					for _, e := range variadicElems(a) {
+						// Options{SkipOpenLibs: true}: a constant true stored into that field of the literal
+						for _, o := range core.Origins(e, core.SliceOpts{}) {
+							al, ok := o.Val.(*ssa.Alloc)
+							if !ok {
+								continue
+							}
+							for _, fv := range core.StoresToCellFields(al) {
+								if b, isC := core.ConstBool(fv); isC && b {
+									skip = true
+								}
+							}
+						}
+					}
+				}
+				r.Check(skip, rule, p.FuncName(fn), lab.next("file-capable Lua libraries"), p.Pos(c.Pos()),
+					"the interpreter is created with its default libraries: a script can call os.remove, os.rename and io.open on any file, a layout's index.json included, and the dry-run flag is not consulted")
+			case "OpenLibs", "OpenOs", "OpenIo":
+				n++
+				r.Violated(rule, p.FuncName(fn), lab.next("file-capable Lua libraries"), p.Pos(c.Pos()),
+					"the "+cal.Name()+" call gives scripts the os / io functions of the interpreter, which change files without consulting the dry-run flag")
+			}
+		})
+	}
+	if n == 0 {
+		r.MissingAnchor(rule, "creation of the Lua state in cmd/regbot/sandbox")
 	}
 }
